@@ -1548,6 +1548,7 @@ class SSHServerChannel(SSHChannel, Generic[AnyStr]):
 
         env_opt = cast(EnvMap, conn.get_key_option('environment', {}))
         self._env = dict(encode_env(env_opt))
+        self._key_env = frozenset(self._env)
 
         self._allow_pty = allow_pty
         self._line_editor = line_editor
@@ -1707,7 +1708,12 @@ class SSHServerChannel(SSHChannel, Generic[AnyStr]):
         packet.check_end()
 
         self.logger.debug1('  Env: %s=%s', key, value)
-        self._env[key] = value
+
+        # Variables set by the environment option of the key or certificate
+        # used to authenticate can't be changed by the client
+        if key not in self._key_env:
+            self._env[key] = value
+
         return True
 
     def _start_session(self, command: Optional[str] = None,
